@@ -331,3 +331,44 @@ def dump_var(module: str, cfg: str, name: str, var: str, *, workers: int | str =
     finally:
         shutil.rmtree(d, ignore_errors=True)
     return res, vals
+
+
+def dump_states(module: str, cfg: str, name: str, wanted: list[str], *, workers: int | str = 16, timeout: int = 3600, cfg_text: str | None = None):
+    """Explore exhaustively with -dump; return (Result, [ {var: value} for every distinct state ]) for the wanted variables."""
+    d = workdir(name + '-dump')
+    path = os.path.join(d, 'g')
+    if cfg_text is not None:
+        cfg = os.path.join(d, 'gen.cfg')
+        open(cfg, 'w').write(cfg_text)
+    res = run(module, cfg, name, workers=workers, args=['-dump', path], timeout=timeout)
+    states = []
+    cur: dict = {}
+    var = None
+    buf: list[str] = []
+
+    def flush():
+        nonlocal var, buf
+        if var is not None and var in wanted:
+            cur[var] = parse_value(' '.join(buf))
+        var, buf = None, []
+
+    try:
+        with open(path + '.dump') as f:
+            for line in f:
+                if line.startswith('State '):
+                    flush()
+                    if cur:
+                        states.append(cur)
+                    cur = {}
+                elif line.startswith('/\\ '):
+                    flush()
+                    name_, _, val = line[3:].partition(' = ')
+                    var, buf = name_.strip(), [val.strip()]
+                elif line.strip():
+                    buf.append(line.strip())
+            flush()
+            if cur:
+                states.append(cur)
+    finally:
+        shutil.rmtree(d, ignore_errors=True)
+    return res, states
